@@ -490,7 +490,7 @@ fn main() {
     driver::main(CheckDef {
         prop: "C04",
         level: "model_checking",
-        rule: "E2: loom explores every C11 execution of 2-3 threads x 1-2 ops (all assignments from the op alphabets) on the AtomicU64 CounterFn/GaugeFn impls compiled from /repo/metrics/src/atomics.rs, final value must be produced by some sequential order; E1: every SC interleaving (pb-bounded) of 3 threads using real Counter/Gauge/Histogram handle clones over Registry<Key, AtomicStorage>; E3: every method x value from the alphabets through logging doubles (exact call log, conversions, no panic) and every op sequence up to the stated depth vs a sequential reference; distinct = distinct outcome / (value) state",
+        rule: "E2: loom explores every C11 execution of 2-3 threads x 1-2 ops (all assignments from the op alphabets) on the AtomicU64 CounterFn/GaugeFn impls compiled from /repo/metrics/src/atomics.rs, final value must be produced by some sequential order; E1: every SC interleaving (pb-bounded) of 3 threads using real Counter/Gauge/Histogram handle clones over Registry<Key, AtomicStorage>; E3: every method x value from the alphabets through logging doubles (exact call log, conversions, no panic) and every op sequence up to the stated depth vs a sequential reference; distinct = distinct outcome / (value) state; batch counts u32::MAX, 2^32 and 2^32+5 through the provided record_many (a counting double) directly and through Arc<T>",
         assumptions: &["loom's C11 model for E2; sequential consistency for E1", "value alphabets: u64 {0,1,5,MAX-1,MAX}, f64 {0,-0,1.5,-2.25,NaN,+-inf,MAX,MIN_POSITIVE}, counts {0,1,3,17}, all IntoF64 integer types at their extremes, Duration incl. MAX"],
         parts,
         run,
